@@ -354,8 +354,9 @@ OBLIGATIONS = [
        timeout=900, bound="second start_response(exc_info) with status '500 ' + 1..2 (thorough 3) arbitrary characters, exception "
                           "swallowed, head sent afterwards"),
     Ob("C09.status_tail.twin", "status_tail_twin", cases=[{"n": 2}], expect="refute", timeout=120),
-    Ob("C09.header_name", "header_name", cases={"quick": [{"n": n} for n in (0, 1, 2)], "thorough": [{"n": n} for n in (0, 1, 2, 3)]},
-       timeout=1200, bound="one header whose name is 0..2 (thorough 3) arbitrary unicode characters"),
+    Ob("C09.header_name", "header_name", cases=[{"n": n} for n in (0, 1, 2)],
+       timeout=1200, bound="one header whose name is 0..2 arbitrary unicode characters (3 characters: ~7000 paths on one core, "
+                           "measured not to finish in 20 min; longer names are covered at the gate by C09.lex_smt)"),
     Ob("C09.header_name.twin", "header_name_twin", cases=[{"n": 2}], expect="refute", timeout=120),
     Ob("C09.header_value", "header_value",
        cases={"quick": [{"name": nm, "n": n} for nm in ("X-A", "Content-Type") for n in (1, 2)] + [{"name": "Upgrade", "n": 1}],
